@@ -331,14 +331,14 @@ def infer_or_gate_from_node(
         ):
             node.operator = Operator.OR
             if len(non_tau_children) > 1:
-                node.children = [
-                    *removed_tau_children,
-                    ProcessTree(
-                        Operator.PARALLEL,
-                        node,
-                        non_tau_children,
-                    ),
-                ]
+                new_child_and = ProcessTree(
+                    Operator.PARALLEL,
+                    node,
+                    non_tau_children,
+                )
+                for child in non_tau_children:
+                    child.parent = new_child_and
+                node.children = [*removed_tau_children, new_child_and]
             else:
                 node.children = removed_tau_children + non_tau_children
             return
